@@ -19,7 +19,7 @@ use std::collections::{BTreeMap, BTreeSet};
 
 // ------------------------------------------------------------------------------ C14
 
-pub const C14_RULE: &str = "positions along generated games driven through Game (apply + toggle_turn as the game loops do; set-up seeds via Game::from_board): at each sampled position ALL 4096 from/to coordinate pairs are submitted (rejections on one Game, each acceptance on its own Game): accepted <=> the reference has a legal move with that from/to; an accepted pair must produce the reference successor (queen for promotions), leave the turn to the caller and make most_recent_move() that move; every reference label of every legal move must be accepted by apply_chess_move_from_raw_algebraic_notation and play exactly that move; near-miss strings (dropped/added 'x', '+', '#', wrong/extra/missing disambiguation, neighbouring targets, changed/removed promotion suffix, lower-case piece letters, labels legal only for the other side or only in the previous position, garbage) are judged three-valued: a string denoting no legal move even under a lenient reading must be rejected, strings in between may go either way but if accepted must play a move they denote; every rejection must leave the full board snapshot and most_recent_move() unchanged. The command-line level is exercised by driving the built `chess pvp` binary over stdin with generated and scripted games (labels incl. castling with check), parsing the printed turn and board. Non-trivial = position offers a promotion, en passant, castle or a notation ambiguity; distinct = position fingerprint.";
+pub const C14_RULE: &str = "positions along generated games driven through Game (apply + toggle_turn as the game loops do; set-up seeds via Game::from_board): at each sampled position ALL 4096 from/to coordinate pairs are submitted (rejections on one Game, each acceptance on its own Game): accepted <=> the reference has a legal move with that from/to; an accepted pair must produce the reference successor (queen for promotions), leave the turn to the caller and make most_recent_move() that move; every reference label of every legal move must be accepted by apply_chess_move_from_raw_algebraic_notation and play exactly that move; near-miss strings (dropped/added 'x', '+', '#', wrong/extra/missing disambiguation, neighbouring targets, changed/removed promotion suffix, lower-case piece letters, labels legal only for the other side or only in the previous position, garbage) are judged three-valued: a string denoting no legal move even under a lenient reading must be rejected, strings in between may go either way but if accepted must play a move they denote; every rejection must leave the full board snapshot and most_recent_move() unchanged. Sessions: one Game object is driven through a whole generated game (shuffle-biased policy on tiny and opening positions, so placements recur with either side to move), listing the labels at every turn (compared with the reference), typing moves alternately by label and by coordinate pair and interleaving labels that belong to the other side only (must be rejected without effect). The command-line level is exercised by driving the built `chess pvp` binary over stdin with generated and scripted games (labels incl. castling with check), parsing the printed turn and board. Non-trivial = position offers a promotion, en passant, castle or a notation ambiguity; distinct = position fingerprint.";
 
 #[derive(Clone, Debug, Serialize, Deserialize)]
 pub struct TypedCase {
@@ -670,9 +670,137 @@ fn run_cli_scripted(_env: &Env, agg: &mut Stats) -> Option<Violation> {
     v
 }
 
+/// One Game object lives through a whole session (as in the play loops): labels are listed at
+/// every turn and the moves are typed alternately as labels and coordinate pairs; shuffling
+/// policies make placements recur with either side to move.
+pub struct C14Session;
+impl Prop for C14Session {
+    type Case = RepCase;
+    fn name(&self) -> &'static str {
+        "C14/session"
+    }
+    fn max_shrink_iters(&self) -> u32 {
+        300
+    }
+    fn strategy(&self, _tier: Tier) -> BoxedStrategy<RepCase> {
+        (rep_seed(), rep_ops(50)).prop_map(|(fen, ops)| RepCase { fen, ops }).boxed()
+    }
+    fn cases(&self, tier: Tier) -> u32 {
+        tier.pick(1_600, 40_000)
+    }
+    fn test(&self, c: &RepCase, st: &mut Stats) -> TestResult {
+        let mut cur = Pos::from_fen(&c.fen).map_err(Failure::new)?;
+        cur.half = 0;
+        let mut game = Game::from_board(to_board(&cur), 1);
+        let mut history: Vec<Mv> = Vec::new();
+        let mut placements: BTreeMap<Vec<Option<(P, Side)>>, BTreeSet<Side>> = BTreeMap::new();
+        let mut lookalike = false;
+        let mut counts: BTreeMap<Key, u32> = BTreeMap::new();
+        counts.insert(key_literal(&cur), 1);
+        for (i, op) in c.ops.iter().enumerate() {
+            let legal = cur.legal_moves();
+            if legal.is_empty() {
+                break;
+            }
+            let sides = placements.entry(cur.sq.to_vec()).or_default();
+            if sides.contains(&cur.side.other()) {
+                lookalike = true;
+            }
+            sides.insert(cur.side);
+            // the listing the loops print every turn
+            let listed = game.enumerated_candidate_moves();
+            let got: Vec<(Mv, String)> = listed.iter().map(|(m, s)| (mv_of(m), s.clone())).collect();
+            let mut scratch = Stats::default();
+            super::pos::check_labels(&cur, &got, &mut scratch, &format!("Game::enumerated_candidate_moves at move {} of a session", i + 1))?;
+            let own_last = if history.len() >= 2 { Some(&history[history.len() - 2]) } else { None };
+            let m = match choose_rep(&cur, &legal, op, own_last) {
+                Some(m) => m,
+                None => continue,
+            };
+            // a label of the other side's move must be rejected without effect
+            if i % 3 == 0 {
+                let mut other = cur.clone();
+                other.side = cur.side.other();
+                other.ep = None;
+                if other.consistent().is_ok() {
+                    let ol = other.legal_moves();
+                    if let Some(om) = ol.first() {
+                        let text = notation::san(&other, om, &ol);
+                        if notation::lenient_matches(&cur, &text, &legal).is_empty() {
+                            let before = snapshot(game.board());
+                            let r = game.apply_chess_move_from_raw_algebraic_notation(text.clone());
+                            if let Ok(pm) = &r {
+                                return Err(fail_pos(
+                                    format!("move {} of a session: {:?} is a label of the OTHER side only, but it was accepted and played {}", i + 1, text, mv_text(&mv_of(pm))),
+                                    &cur,
+                                ));
+                            }
+                            snapshot_eq(&before, &snapshot(game.board()), &format!("rejected string {:?}", text), &cur)?;
+                            st.count("session_must_reject", 1);
+                        }
+                    }
+                }
+            }
+            let typed_label = i % 2 == 0 || (m.kind == Kind::Promo && m.promo != Some(P::Queen));
+            let played = if typed_label {
+                let label = notation::san(&cur, &m, &legal);
+                match game.apply_chess_move_from_raw_algebraic_notation(label.clone()) {
+                    Ok(pm) => mv_of(&pm),
+                    Err(e) => {
+                        return Err(fail_pos(
+                            format!("move {} of a session: the standard label {:?} of {} was rejected: {:?}", i + 1, label, mv_text(&m), e),
+                            &cur,
+                        ))
+                    }
+                }
+            } else {
+                match game.apply_chess_move_by_from_to_coordinates(bb(m.from), bb(m.to)) {
+                    Ok(pm) => mv_of(&pm),
+                    Err(e) => {
+                        return Err(fail_pos(
+                            format!("move {} of a session: the pair {}{} of the legal move {} was rejected: {:?}", i + 1, sq_name(m.from), sq_name(m.to), mv_text(&m), e),
+                            &cur,
+                        ))
+                    }
+                }
+            };
+            let want = if !typed_label && m.kind == Kind::Promo {
+                Mv { promo: Some(P::Queen), ..m }
+            } else {
+                m
+            };
+            if played != want {
+                return Err(fail_pos(
+                    format!("move {} of a session: typed {} but the game played {}", i + 1, mv_text(&want), mv_text(&played)),
+                    &cur,
+                ));
+            }
+            let next = cur.make(&want);
+            if let Err(e) = successor_matches(&game, &next, cur.side) {
+                return Err(fail_pos(format!("move {} of a session, after {}: {}", i + 1, mv_text(&want), e), &cur));
+            }
+            game.board_mut().toggle_turn();
+            cur = next;
+            history.push(want);
+            st.count("session_moves", 1);
+            let n = counts.entry(key_literal(&cur)).or_insert(0);
+            *n += 1;
+            if *n >= 3 || cur.half >= 100 {
+                break;
+            }
+        }
+        if lookalike {
+            st.label("same-placement-other-side-to-move");
+            st.nontrivial(fp_of(c), || json!({"seed": c.fen, "moves": history.iter().map(notation::uci).collect::<Vec<_>>().join(" ")}));
+        }
+        Ok(())
+    }
+}
+
 pub fn c14_checks() -> Vec<Box<dyn DynCheck>> {
     vec![
         Box::new(C14Typed),
+        Box::new(C14Session),
         Box::new(FnCheck {
             name: "C14/cli-scripted",
             run: run_cli_scripted,
